@@ -147,6 +147,7 @@ SERVER_CALLS: t.Dict[str, t.Callable[[t.Any, int], t.Any]] = {
 SERVER_CALLS_EXTRA: t.Dict[str, t.Callable[[t.Any, int], t.Any]] = {
     "entry1k": lambda s, i: s.search_result_entry(i, "cn=e", [L.PartialAttribute("a", [b"k" * 1000])]),
     "entry70k": lambda s, i: s.search_result_entry(i, "cn=e", [L.PartialAttribute("a", [b"K" * 70000])]),
+    "ref0": lambda s, i: s.search_result_reference(i, []),  # C12: a call that succeeds has put exactly one message into the stream
 }
 GARBAGE = b"\x04\x00"
 
